@@ -142,6 +142,36 @@ class GaussBA(Model):
         return x_out
 
 
+class Gauss3A(Model):
+    """Three parameters, names not in sorted order, all bounds and likelihood widths different
+    (nothing is symmetric under a permutation of the parameters)."""
+
+    def __init__(self, vectorised=True):
+        self.names = ["c", "a", "b"]
+        self.bounds = {"c": [0.0, 10.0], "a": [-5.0, 5.0], "b": [-1.0, 3.0]}
+        self.allow_vectorised = vectorised
+
+    def log_prior(self, x):
+        return np.log(self.in_bounds(x), dtype="float64") - np.log(400.0)
+
+    def log_likelihood(self, x):
+        return (x["c"] - 3.0) * (x["c"] - 3.0) * (-0.5) + (x["a"] + 1.0) * (x["a"] + 1.0) * (-2.0) + (x["b"] - 0.5) * (x["b"] - 0.5) * (-8.0)
+
+    def to_unit_hypercube(self, x):
+        x_out = x.copy()
+        x_out["c"] = x["c"] / 10.0
+        x_out["a"] = (x["a"] + 5.0) / 10.0
+        x_out["b"] = (x["b"] + 1.0) / 4.0
+        return x_out
+
+    def from_unit_hypercube(self, x):
+        x_out = x.copy()
+        x_out["c"] = 10.0 * x["c"]
+        x_out["a"] = 10.0 * x["a"] - 5.0
+        x_out["b"] = 4.0 * x["b"] - 1.0
+        return x_out
+
+
 class GaussTilt(GaussRamp):
     """Ramp prior on x0 but a LINEAR map to the unit hypercube: the prior in the hypercube is
     not flat (density 2u on the first axis) and the model says so by overriding
@@ -261,6 +291,8 @@ def make(name="G2", **kw):
         return GaussCut(2, **kw)
     if name == "G2hole":
         return GaussHole(2, **kw)
+    if name == "G3a":
+        return Gauss3A(**kw)
     if name == "G2ba":
         return GaussBA(**kw)
     if name == "G2tilt":
